@@ -1,0 +1,12 @@
+//go:build verif
+
+package chronicler
+
+// NewV2VerifC02 builds a V2 chronicler with a chosen block size AND a swamp name (no exported
+// constructor offers both). The compaction threshold is 1.0, so no compaction ever triggers:
+// the C02/C25 harnesses observe the plain append path only.
+func NewV2VerifC02(swampDataFolderPath string, maxDepth int, maxBlockSize int, swampName string) Chronicler {
+	c := NewV2WithConfig(swampDataFolderPath, maxDepth, maxBlockSize, 1.0).(*chroniclerV2)
+	c.swampName = swampName
+	return c
+}
